@@ -260,6 +260,28 @@ package twig
 //@ applyfile safety compiled.go
 //@ applyfile safety whitespace.go
 //@ applyfile safety utility.go
+//@ applyfile safety parser.go
+//@ applyfile safety parse_apply.go
+//@ applyfile safety parse_block.go
+//@ applyfile safety parse_do.go
+//@ applyfile safety parse_extends.go
+//@ applyfile safety parse_for.go
+//@ applyfile safety parse_from.go
+//@ applyfile safety parse_if.go
+//@ applyfile safety parse_import.go
+//@ applyfile safety parse_include.go
+//@ applyfile safety parse_macro.go
+//@ applyfile safety parse_set.go
+//@ applyfile safety parse_verbatim.go
+//@ applyfile safety expr.go
+//@ applyfile safety expr_pool.go
+//@ applyfile safety node_pool.go
+//@ applyfile safety node_pool_extensions.go
+//@ applyfile safety twig.go
+//@ applyfile safety loader.go
+//@ applyfile safety compiled_loader.go
+//@ applyfile safety sandbox.go
+//@ applyfile safety debugging.go
 //@ applyfile safety zero_alloc_tokenizer.go
 //@ applyfile safety tokenizer.go
 //@ applyfile safety buffer_pool.go
@@ -735,6 +757,8 @@ package twig
 //@   loop 1 invariant hashable(tag(cur(node)))
 //@ func (*Parser).parseExpression props: C05
 //@   loop * invariant hashable(tag(expr))
+//@ func (*Parser).parseOperand props: C05
+//@   loop * invariant hashable(tag(expr))
 
 // ---------------------------------------------------------------- tag recognition (C04, C14, C05)
 // One specification of "where the next tag starts and where it ends", as functions of the source
@@ -893,3 +917,55 @@ package twig
 //@ func (*Buffer).formatInt props: C05
 //@   loop 1 invariant 0 <= j && j <= digits && 1 <= digits && digits <= 6 && 0 <= start && len(b.buf) == start + j
 //@   loop 2 invariant 0 <= j && 1 <= digits && digits <= 6 && 0 <= start && len(b.buf) == start + digits && end == len(b.buf) - 1
+
+// ---------------------------------------------------------------- operator precedence (C08)
+// Precedence climbing, stated by its three defining conditions: parseBinaryExpression consumes the
+// operator it is entered on and builds Binary(op, left, R); it hands its right operand to a nested
+// call only while the next operator binds strictly tighter than op (so equal precedence groups from
+// the left); and when it returns, no operator that binds tighter than op follows. parseExpression
+// feeds every result back as the left operand of the next operator until no binary operator
+// follows. Which token sequences are binary operators is one specification (binOpAt / opAt, the
+// operator list of the statement), to which peekBinaryOperator is proved equal.
+//@ define tokT(P, K) P.tokens[P.tokenIndex + K].Type
+//@ define tokV(P, K) P.tokens[P.tokenIndex + K].Value
+//@ define nextName(P, W) (P.tokenIndex + 1 < len(P.tokens) && tokT(P, 1) == TOKEN_NAME && tokV(P, 1) == W)
+//@ define binOpAt(P) (P.tokenIndex < len(P.tokens) && (tokT(P, 0) == TOKEN_OPERATOR || (tokT(P, 0) == TOKEN_NAME && (tokV(P, 0) == "and" || tokV(P, 0) == "or" || tokV(P, 0) == "in" || tokV(P, 0) == "matches" || tokV(P, 0) == "not" || tokV(P, 0) == "is" || tokV(P, 0) == "starts" || tokV(P, 0) == "ends"))))
+//@ define opAt(P) ite(tokT(P, 0) == TOKEN_OPERATOR, tokV(P, 0), ite(tokV(P, 0) == "not" && nextName(P, "in"), "not in", ite(tokV(P, 0) == "is" && nextName(P, "not"), "is not", ite(tokV(P, 0) == "starts" && nextName(P, "with"), "starts with", ite(tokV(P, 0) == "ends" && nextName(P, "with"), "ends with", tokV(P, 0))))))
+//@ define prec(O) fn_getOperatorPrecedence_0(O)
+//@ func (*Parser).nextTokenIsName props: C08 C05
+//@   pure
+//@   requires 0 <= p.tokenIndex
+//@   ensures ret == nextName(p, word)
+//@ apply parseexpr (*Parser).parseOperand
+//@ func (*Parser).peekBinaryOperator props: C08 C05
+//@   pure
+//@   requires 0 <= p.tokenIndex
+//@   ensures[C08] ret1 == binOpAt(p) && (ret1 ==> ret0 == opAt(p))
+//@ func GetBinaryNode props: C08
+//@   ensures[C08] ret.operator == operator && ret.left == left && ret.right == right
+//@ func NewBinaryNode props: C08
+//@   ensures[C08] ret.operator == operator && ret.left == left && ret.right == right
+//@ define retBin() unboxAs(ret0, "*BinaryNode")
+//@ func (*Parser).parseBinaryExpression props: C08
+//@   loop 2 invariant[C08] precedence == prec(operator)
+//@   atcall[C08] (*Parser).parseBinaryExpression a0 == p && a1 == cur(right) && binOpAt(p) && prec(opAt(p)) > precedence
+//@   ensures[C08] err == nil && typeIs(ret0, "*BinaryNode") ==> retBin().left == left && !(binOpAt(p) && prec(opAt(p)) > prec(retBin().operator))
+//@ func (*Parser).parseExpression props: C08
+//@   atcall[C08] (*Parser).parseBinaryExpression a0 == p && a1 == cur(expr) && binOpAt(p)
+//@ func isIdentifier props: C05 C08
+//@   pure
+//@   loop 1 invariant 0 <= i
+//@ func processEscapeSequences props: C05
+//@   loop 1 invariant 0 <= i
+//@ func ProcessStringEscapes props: C05
+//@   loop 1 invariant 0 <= i
+//@   loop 2 invariant 0 <= i
+// both tokenizers end their result with the EOF token the parser relies on, and the result is the
+// tokenizer's own buffer (which ApplyWhitespaceControl then edits in place)
+//@ group tokresult props: C05
+//@   ensures err == nil ==> len(ret0) >= 1
+//@   ensures err == nil ==> ret0 == t.result
+//@   ensures err == nil ==> ret0[len(ret0) - 1].Type == TOKEN_EOF
+//@   ensures err == nil ==> ret0[len(ret0) - 1].Value == ""
+//@ apply tokresult (*ZeroAllocTokenizer).TokenizeOptimized
+//@ apply tokresult (*ZeroAllocTokenizer).TokenizeHtmlPreserving
